@@ -98,3 +98,4 @@ package sessions
 //@ func PrefixMountPoint(mountPoint string, t []byte) (out []byte)
 //@   ensures prefixed(mountPoint, t, out) && fresh(out) && out != nil
 //@   modifies newrows(t)
+//@ guarded Session.topics by mtx
